@@ -145,6 +145,31 @@ func c01r1(c *core.Ctx) {
 				c.Violation("C01/R1", subject, c.At(call.Pos()), fmt.Sprintf("%s: no `if %s { ... }` fix-up follows the swap-remove before the next row mutation of %s", f.Name, resVar, T))
 				return true
 			}
+			// the row expression must still denote the removed row when the fix-up uses it: if it reads the entity index
+			// through a pointer, no store into the entity index may lie between the swap-remove and the fix-up
+			if rp := m.AccessPath(f, call.Args[0]); rp.Deref && rp.Has("storage.entities") {
+				clobbered := false
+				for _, s := range list[idx+1:] {
+					if s == ast.Stmt(ifStmt) {
+						break
+					}
+					ast.Inspect(s, func(x ast.Node) bool {
+						switch x.(type) {
+						case *ast.AssignStmt, *ast.IncDecStmt:
+							for _, st := range m.DirectStores(f, x) {
+								if st.Path.Has("storage.entities") {
+									clobbered = true
+								}
+							}
+						}
+						return true
+					})
+				}
+				if clobbered {
+					c.Violation("C01/R1", subject, c.At(ifStmt.Pos()), fmt.Sprintf("%s: the row expression %s reads the entity index through a pointer and the entity index is written between the swap-remove and its fix-up; the fix-up would use the new row and repair the wrong entity", f.Name, row))
+					return true
+				}
+			}
 			// inside the then-branch: E := T.GetEntity(row); entities[E.id].row = row
 			okFix, why := false, "no store of the row index of the swapped entity"
 			entVars := map[string]bool{}
@@ -689,6 +714,15 @@ func c01r5(c *core.Ctx) {
 					if id, ok := ast.Unparen(sel.X).(*ast.Ident); ok && m.Info.ObjectOf(id) == v {
 						for _, s := range c.Eff.Stores(cal) {
 							if s.Path.Kind == core.RootParam && s.Path.Index == -1 {
+								return true
+							}
+						}
+					}
+				}
+				for ai, arg := range x.Args {
+					if id, ok := ast.Unparen(arg).(*ast.Ident); ok && m.Info.ObjectOf(id) == v {
+						for _, s := range c.Eff.Stores(cal) {
+							if s.Path.Kind == core.RootParam && s.Path.Index == ai {
 								return true
 							}
 						}
